@@ -2,6 +2,7 @@ package main
 
 import (
 	"fmt"
+	"math"
 
 	"github.com/ulikunitz/lz"
 )
@@ -836,6 +837,10 @@ func genReadAtOp(r *RNG, bs int) Op {
 		op.X = r.Range(-2, 2) + r.Pick(1<<16, 1<<31, 1<<32, -(1<<32), 2<<32, 1<<40, -(1<<40), 1<<62, -(1<<62))
 	}
 	op.N = r.Pick(0, 1, 2, 3, 8, bs/2, bs, bs+1)
+	if op.K == "PeekAt" && r.Chance(0.2) {
+		// PeekAt takes a length, not a slice: lengths near the integer limits
+		op.N = r.Pick(1<<31, 1<<32, 1<<40, 1<<62, math.MaxInt64-3, math.MaxInt64-1, math.MaxInt64)
+	}
 	return op
 }
 
